@@ -107,7 +107,10 @@ CHECKS = {
              "threads (stream-level encodes through a scripted source incl. failing ones, frame-level encodes, writes to ByteSink / MemSink<u64> "
              "with and without precomputed frames, parse + re-serialise + decode, verify). 80% of the calls are neighbours of an earlier call "
              "(one argument changed: block smaller/larger, channels, width, Rice cap 14<->0, fixed order 4<->0, Tukey alpha +-1..300 ulp, ...) "
-             "or exact repeats. Every call's result is compared with the same call made alone on a freshly spawned thread. The multi-thread "
+             "or exact repeats. Calls may use objects with a history of their own (a FrameBuf kept by the caller thread across frame-level encodes of "
+             "changing width / fill / configuration; a Stream that was already written, counted, verified, copied, written to a failing sink, or "
+             "written before its STREAMINFO was finalised); one history in eight is centred on such an object. "
+             "Every call's result is compared with the same call made alone, with new objects, on a freshly spawned thread. The multi-thread "
              "slice (an earlier call on the same simulated main thread, then a multi-thread encode under seeded schedules) runs in parsim.",
         design_ref="DESIGN.md section 4.1",
         note="No concurrency is involved in the seamsim part (exactly one caller runs at a time; the operation list is the schedule); what is "
